@@ -219,7 +219,7 @@ def run(ck, ctx):
     # ---- E7: the line machine at statement boundaries
     from ..specs import lines as L
     L.check_statement_boundaries(ck, ctx)
-    ck.floor("O-split", 100)
+    ck.floor("O-split", 10)
     ck.assumptions += [
         "PLY's LRParser.parse() starts from an empty stack on every call and keeps nothing between calls but the lexer object",
         "the line machine is decided at line-class level (E7): statements of the listed shapes (one-line, multi-line table with and "
